@@ -1,0 +1,16 @@
+//go:build verif
+
+package tasklane
+
+import "sync/atomic"
+
+// VerifHook is a schedule-control and trace point for the verification harness in /verif (build
+// tag "verif"). When set, it is called by the lane's goroutines at the protocol points named in
+// tasklane.go (the call may block to hold a goroutine at that point).
+var VerifHook atomic.Pointer[func(point string, lane int)]
+
+func verifAt(point string, lane int) {
+	if h := VerifHook.Load(); h != nil {
+		(*h)(point, lane)
+	}
+}
